@@ -128,7 +128,12 @@ class FetchUnused(FetchStream):
                 # lines that move the line counter in unusual ways in front of the reported definitions (the same lines in front
                 # of every source): a quoted value continued with backslash-newline, a quoted value spanning lines, a value
                 # continued with a backslash, blank lines.  The reported lines must move by exactly the newlines added.
-                pre = rng.choice(['zq = "a\\\nb"\n', 'zq = "a\nb\nc"\n', "zq = a \\\n  b\n", "\n\n", 'zq = """x\\\n\ny"""\nzr = 1\n'])
+                pre, names = rng.choice([
+                    ('zq = "a\\\nb"\n', [["zq", 1]]), ('zq = "a\nb\nc"\n', [["zq", 1]]), ("zq = a \\\n  b\n", [["zq", 1]]), ("\n\n", []),
+                    ('zq = """x\\\n\ny"""\nzr = 1\n', [["zq", 1], ["zr", 4]]),
+                    # the value starts on a later line than the name: the report cites the line of the NAME
+                    ("zq = \\\n  b c\n", [["zq", 1]]), ("\nzq = \\\n\n  'q'\nzr = \\\n 2\n", [["zq", 2], ["zr", 5]])])
+                c["pre_names"] = names
                 c["pre"] = pre
                 c["s"] = [pre + t for t in c["s"]]
             yield c
@@ -147,6 +152,10 @@ class FetchUnused(FetchStream):
                 and o0[2][0] == "ok" and obs[4][2][0] == "ok":
             shift = case["pre"].count("\n")
             with_pre = sorted([p, int(l)] for p, l in o0[2][1] if int(l) > shift)     # entries of the added lines themselves left out
+            own = sorted([p, int(l)] for p, l in o0[2][1] if int(l) <= shift)
+            want_own = sorted([list(x) for x in case.get("pre_names", [])] * len(case["s"]))
+            if own != want_own:
+                return "lines: the definitions of the added lines are reported as %s, they stand at %s" % (json.dumps(own)[:200], json.dumps(want_own)[:200])
             plain = sorted([p, int(l) + shift] for p, l in obs[4][2][1])
             if with_pre != plain:
                 return "lines: with %d extra line(s) in front of every source the report is %s; without them %s (expected the same entries %d line(s) further down)" % (
